@@ -647,17 +647,20 @@ def gen_programs(tier, seed):
 
 
 # --------------------------------------------------------------------------- running
-def run_harness(cases, exe, chunk=250, max_stuck=12):
-    """Runs the cases in chunks; gives up early when many cases hang or crash (each costs its full deadline,
-    and one is already a violation). Returns (rc, lines, cases actually run)."""
+def run_harness(cases, exe, chunk=50, max_stuck=6, deadline_ms=3000, budget_s=240):
+    """Runs the cases in chunks under a short per-case deadline; gives up early when many cases hang or crash
+    (each costs its full deadline, and one is already a violation) or when the time budget is used up.
+    Returns (rc, lines, cases actually run)."""
     lines, stuck, rc = [], 0, 0
+    t0 = time.time()
+    env_cmd = ["env", "VERIF_OPT_DEADLINE_MS=%d" % deadline_ms, exe]
     for i in range(0, len(cases), chunk):
         part = cases[i:i + chunk]
-        r, out = vplib.run_lines([exe], "\n".join(part) + "\n", timeout=600)
+        r, out = vplib.run_lines(env_cmd, "\n".join(part) + "\n", timeout=600)
         rc = rc or r
         lines += out
         stuck += sum(1 for l in out if l.endswith("\tHANG\t-") or l.endswith("\tCRASH\t-"))
-        if r != 0 or len(out) != len(part) or stuck > max_stuck:
+        if r != 0 or len(out) != len(part) or stuck > max_stuck or time.time() - t0 > budget_s:
             return rc, lines, cases[:i + len(part)]
     return rc, lines, cases
 
@@ -841,17 +844,17 @@ def run(tier, seed):
     stats = new_stats()
     samples = []
     t0 = time.time()
-    rc, lines, ran = run_harness(cases, exe)
+    rc, lines, ran = run_harness(cases, exe, budget_s=1500 if tier == "thorough" else 240)
     if rc != 0 or len(lines) != len(ran):
         v.tie_failure("optimize harness rc=%s lines=%d/%d" % (rc, len(lines), len(ran)))
     if len(ran) != len(cases):
-        v.notes.append("stopped after %d of %d cases: too many hanging or crashing cases" % (len(ran), len(cases)))
+        v.notes.append("stopped after %d of %d cases: too many hanging or crashing cases, or time budget used up" % (len(ran), len(cases)))
     # a case that missed its deadline or crashed is run once more on its own before it counts (machine load)
     retried = 0
     for i, l in enumerate(lines):
-        if (l.endswith("\tHANG\t-") or l.endswith("\tCRASH\t-")) and retried < 6:
+        if (l.endswith("\tHANG\t-") or l.endswith("\tCRASH\t-")) and retried < 3:
             retried += 1
-            r2, out2, _ = run_harness([l.split("\t")[0]], exe)
+            r2, out2, _ = run_harness([l.split("\t")[0]], exe, deadline_ms=20000)
             if r2 == 0 and len(out2) == 1:
                 lines[i] = out2[0]
     if retried:
@@ -860,11 +863,15 @@ def run(tier, seed):
     stats["harness_wall_s"] = round(time.time() - t0, 1)
     if okm:
         t1 = time.time()
-        rcm, mlines = vplib.run_lines([vplib.OCAML_BUILD + "/opt_driver"], "\n".join(lines) + "\n", timeout=400)
-        if rcm != 0:
-            v.tie_failure("opt_driver rc=%s %s" % (rcm, mlines[-1:]))
-        else:
-            correspond(lines, mlines, v, stats)
+        # in chunks, each under its own deadline: on blocks produced by a broken implementation (cycles, huge
+        # sizes) the unary-number model can take very long; a chunk that does not finish is a broken tie
+        for i in range(0, len(lines), 400):
+            part = lines[i:i + 400]
+            rcm, mlines = vplib.run_lines([vplib.OCAML_BUILD + "/opt_driver"], "\n".join(part) + "\n", timeout=90)
+            if rcm != 0:
+                v.tie_failure("opt_driver rc=%s on cases %d..%d %s" % (rcm, i, i + len(part), [m[:200] for m in mlines[-1:]]))
+                break
+            correspond(part, mlines, v, stats)
         stats["model_wall_s"] = round(time.time() - t1, 1)
     try:
         os.unlink(exe)
